@@ -26,6 +26,9 @@ clause → theorem
 * … so a later attempt or call reconnects and succeeds ............... `C19.recovers`, `C19.recovers_after_any_history`
 * … and those kinds are exactly what the client model (C06) allows ... `C19.dead_kinds_from_client_model_blocking`,
                                                                          `…_async`, `…_async_race`, `C19.dead_kinds_are_exactly_the_model_outcomes`
+* connection management (`connect_all`, `disconnect_all`, `reconnect_disconnected`) and `health_check`
+  keep the recovery guarantee ........................................ `C19.source_forms_management`, `C19.health_check_one_attempt_and_invalidates`,
+                                                                         `C19.connect_all_sound`, `C19.disconnect_reconnect`, `C19.recovers_after_any_operations`
 * broadcast addresses exactly the nodes carrying all requested tags .. `C19.broadcast_targets`
 * exactly one result per addressed node .............................. `C19.broadcast_one_result_each`
 
@@ -257,6 +260,80 @@ theorem recovers_after_any_history (P : Policy) (hP : P ∈ policies) (lf : Loop
 example : cacheAfter Gen.Fleet.loopJson .none
     [(Gen.Fleet.policy, 2, [.silent, .refused]), (Gen.Fleet.asyncPolicy, 1, [.malformed])] = .dead := by
   decide
+
+/-! ### connection management and health check -/
+
+/-- Facts re-extracted from the source: both `health_check`s make one attempt and invalidate the client
+after any error; all four retry loops pass the *node's* timeout to the client call. -/
+theorem source_forms_management :
+    Gen.Fleet.healthForm = ⟨true, true⟩ ∧ Gen.Fleet.asyncHealthForm = ⟨true, true⟩ ∧
+    Gen.Fleet.nodeTimeout = true ∧ Gen.Fleet.asyncNodeTimeout = true := by decide
+
+/-- `health_check` makes at most one contact, reports healthy iff that attempt was answered with
+success, and an unhealthy verdict never leaves a client behind (in particular not a dead one): the
+next call reconnects. -/
+theorem health_check_one_attempt_and_invalidates (P : Policy) (c : Cache) (bs : List Behaviour) :
+    (healthStep P Gen.Fleet.healthForm c bs).2.1 ≤ 1 ∧
+    ((healthStep P Gen.Fleet.healthForm c bs).1 ≠ .ok → (healthStep P Gen.Fleet.healthForm c bs).2.2.1 = .none) ∧
+    (healthStep P Gen.Fleet.asyncHealthForm c bs).2.1 ≤ 1 ∧
+    ((healthStep P Gen.Fleet.asyncHealthForm c bs).1 ≠ .ok → (healthStep P Gen.Fleet.asyncHealthForm c bs).2.2.1 = .none) := by
+  rw [source_forms_management.1, source_forms_management.2.1]
+  have h : ∀ hf : HealthForm, hf = ⟨true, true⟩ →
+      (healthStep P hf c bs).2.1 ≤ 1 ∧ ((healthStep P hf c bs).1 ≠ .ok → (healthStep P hf c bs).2.2.1 = .none) := by
+    intro hf hhf; subst hhf
+    simp only [healthStep]
+    constructor
+    · split <;> simp
+    · intro hne
+      cases hr : (step P c bs).entry.reply with
+      | ok => exact absurd hr hne
+      | err e => simp
+  exact ⟨(h _ rfl).1, (h _ rfl).2, (h _ rfl).1, (h _ rfl).2⟩
+
+example : (healthStep Gen.Fleet.policy Gen.Fleet.healthForm .live [.malformed]).2.2.1 = .none := by decide
+
+/-- `connect_all` / `reconnect_disconnected` on one node: the node is reported connected iff its slot is
+occupied afterwards; it fails only if the slot was empty and the node refused; an occupied slot (even a
+dead client — that is what `never_wedged` is for) is left alone and no behaviour is consumed. -/
+theorem connect_all_sound (c : Cache) (bs : List Behaviour) :
+    ((connectStep c bs).1 = (connectStep c bs).2.1.connected) ∧
+    ((connectStep c bs).1 = false → c = .none ∧ ∃ r, bs = .refused :: r) ∧
+    (c ≠ .none → (connectStep c bs).2.1 = c ∧ (connectStep c bs).2.2 = bs) := by
+  cases c <;> cases bs with
+  | nil => simp [connectStep, Cache.connected]
+  | cons b r => cases b <;> simp [connectStep, Cache.connected]
+
+/-- `disconnect_all` empties the slot; `reconnect_disconnected` does not touch an occupied one. -/
+theorem disconnect_reconnect (P : Policy) (lf : LoopForm) (hf : HealthForm) (max : Nat) (st : LifeState) :
+    (lifeStep P lf hf max st .disconnectAll).2.2.cache = .none ∧
+    (st.cache ≠ .none → (lifeStep P lf hf max st .reconnect).2.2.cache = st.cache ∧
+                        (lifeStep P lf hf max st .reconnect).2.2.rest = st.rest) := by
+  refine ⟨rfl, fun h => ?_⟩
+  cases hc : st.cache with
+  | none => exact absurd hc h
+  | live => simp [lifeStep, hc]
+  | dead => simp [lifeStep, hc]
+
+/-- **Whatever management operations and calls were made before** (`connect_all`, `disconnect_all`,
+`reconnect_disconnected`, `health_check`, calls — any sequence, any node behaviours), once the node is
+healthy a call with two attempts succeeds, and with one attempt the second call at the latest. -/
+theorem recovers_after_any_operations (P : Policy) (hP : P ∈ policies) (lf : LoopForm) (hlf : lf ∈ loops)
+    (P0 : Policy) (hf : HealthForm) (max0 : Nat) (st : LifeState) (ops : List LifeOp) (max : Nat) (hmax : 1 ≤ max) :
+    let c := (lifeRun P0 lf hf max0 st ops).2.cache
+    (call P lf max c []).result = some .ok ∨
+      (call P lf max (call P lf max c []).cache []).result = some .ok := by
+  intro c
+  have hb : healthy [] := by intro b hb; cases hb
+  obtain ⟨h2, h1⟩ := recovers P hP lf hlf c [] hb
+  by_cases hm : 2 ≤ max
+  · exact .inl (h2 max hm).1
+  · obtain rfl : max = 1 := by omega
+    rcases h1 with h | ⟨_, h, _⟩
+    · exact .inl h
+    · exact .inr h
+
+example : (lifeRun Gen.Fleet.policy Gen.Fleet.loopJson Gen.Fleet.healthForm 2 ⟨.none, [.refused, .malformed], []⟩
+    [.connectAll, .connectAll, .health, .reconnect, .call]).2.cache = .live := by decide
 
 /-! ### composition with C06 (the multiplexing clients under the fleet)
 
